@@ -77,6 +77,19 @@ func smallSystem(r *rand.Rand) (*prover.ProvingSystem, int, error) {
 	return &prover.ProvingSystem{TreeDepth: depth, BatchSize: batch, ProvingKey: pk, VerifyingKey: vk, ConstraintSystem: ccs}, k, nil
 }
 
+// smallSystemK builds an independent system for a fixed circuit size and header.
+func smallSystemK(r *rand.Rand, k int, depth, batch uint32) (*prover.ProvingSystem, int, error) {
+	ccs, err := frontend.Compile(ecc.BN254.ScalarField(), r1cs.NewBuilder, &powCircuit{K: k})
+	if err != nil {
+		return nil, 0, err
+	}
+	pk, vk, err := groth16.Setup(ccs)
+	if err != nil {
+		return nil, 0, err
+	}
+	return &prover.ProvingSystem{TreeDepth: depth, BatchSize: batch, ProvingKey: pk, VerifyingKey: vk, ConstraintSystem: ccs}, k, nil
+}
+
 // smallProve proves the trivial statement with ps and returns proof and public witness value.
 func smallProve(ps *prover.ProvingSystem, k int, x *big.Int) (groth16.Proof, *big.Int, error) {
 	y := powValue(x, k)
